@@ -136,12 +136,12 @@ package mqtt
 
 //@ func (*pktPublish).Pack
 //@   mode int
-//@   props C05
+//@   props C05 C15
 //@   pure
 //@   freshresult
 //@   requires p != nil && p.Message != nil && p.Message.QoS <= QoS2
 //@   requires len(p.Message.Topic) <= 0xFFFF && len(p.Message.Topic)+len(p.Message.Payload)+4 <= 0xFFFFFFF
-//@   ensures[C05,C12] seqEq(seqOf(result), specPublish(p.Message))
+//@   ensures[C05,C12,C15] seqEq(seqOf(result), specPublish(p.Message))
 
 //@ func (*pktPubAck).Pack
 //@   mode int
@@ -340,25 +340,25 @@ package mqtt
 
 //@ func (*pktSubscribe).Pack
 //@   mode int
-//@   props C05
+//@   props C05 C15
 //@   pure
 //@   freshresult
 //@   requires p != nil
 //@   requires forall(0, len(p.Subscriptions), func(i int) bool { return p.Subscriptions[i].QoS <= QoS2 && len(p.Subscriptions[i].Topic) <= 0xFFFF })
 //@   requires 2+slen(specSubPayload(p.Subscriptions, len(p.Subscriptions))) <= 0xFFFFFFF
 //@   loop 1 invariant seqEq(seqOf(payload), specSubPayload(p.Subscriptions, rangeindex+1))
-//@   ensures[C05] seqEq(seqOf(result), specSubscribe(p.ID, p.Subscriptions))
+//@   ensures[C05,C15] seqEq(seqOf(result), specSubscribe(p.ID, p.Subscriptions))
 
 //@ func (*pktUnsubscribe).Pack
 //@   mode int
-//@   props C05
+//@   props C05 C15
 //@   pure
 //@   freshresult
 //@   requires p != nil
 //@   requires forall(0, len(p.Topics), func(i int) bool { return len(p.Topics[i]) <= 0xFFFF })
 //@   requires 2+slen(specUnsubPayload(p.Topics, len(p.Topics))) <= 0xFFFFFFF
 //@   loop 1 invariant seqEq(seqOf(payload), specUnsubPayload(p.Topics, rangeindex+1))
-//@   ensures[C05] seqEq(seqOf(result), specUnsubscribe(p.ID, p.Topics))
+//@   ensures[C05,C15] seqEq(seqOf(result), specUnsubscribe(p.ID, p.Topics))
 
 // ---- CONNECT (MQTT 3.1.1 section 3.1) ----
 
